@@ -149,7 +149,7 @@ int mon_views(const mon_args_t *a) {
     /* make sure at least one operand is a window */
     int nslots = 0, slots[MAXSLOT];
     for (int i = 0; i < MAXSLOT; i++)
-      if (op->role[i] != R_NONE && c.same_as[i] < 0 && c.in[i] && c.in[i]->m && c.in[i]->n) slots[nslots++] = i;
+      if (op->role[i] != R_NONE && c.same_as[i] < 0 && c.plc[i] < 0 && c.in[i] && c.in[i]->m && c.in[i]->n) slots[nslots++] = i;
     if (nslots) {
       int s = slots[rng_int(&r, 0, nslots - 1)];
       c.plc[s] = rng_chance(&r, 1, 2) ? PL_WIN_EVEN : PL_WIN_ODD;
@@ -166,7 +166,7 @@ int mon_views(const mon_args_t *a) {
     HX.nontrivial = nt;
     {
       char plc[160];
-      opcase_placements(&c, plc, sizeof plc);
+      opcase_placements_detail(&c, plc, sizeof plc);
       hx_cls("%s", plc);
       for (int i = 0; i < MAXSLOT; i++)
         if (c.o[i] && c.same_as[i] < 0) hx_tag("%s@%d=%s", op->name, i, c.o[i]->cls);
